@@ -194,11 +194,13 @@ var (
 	srvTLS, cliTLS   *tls.Config
 	srvMTLS, cliMTLS *tls.Config
 	otherCAClient    *tls.Config
+	earlierCAClient  *tls.Config // a client certificate from a GetTLSConfig call made BEFORE the server's configuration
 )
 
 func tlsConfigs() {
 	tlsOnce.Do(func() {
 		srvTLS, cliTLS = testdirectory.GetTLSConfig(&harnessT{})
+		_, earlierCAClient = testdirectory.GetTLSConfig(&harnessT{}, testdirectory.WithMTLS(&harnessT{}))
 		srvMTLS, cliMTLS = testdirectory.GetTLSConfig(&harnessT{}, testdirectory.WithMTLS(&harnessT{}))
 		_, otherCAClient = testdirectory.GetTLSConfig(&harnessT{}, testdirectory.WithMTLS(&harnessT{}))
 	})
